@@ -1,6 +1,7 @@
 package main
 
 import (
+	"go/token"
 	"fmt"
 	"go/types"
 	"strings"
@@ -309,6 +310,11 @@ func (fr *Frame) lockObl(site ssa.Instruction, st *State, reach, kind, goal stri
 		top = top.parent
 	}
 	if top.spec == nil || !top.spec.Flags["locks"] {
+		if kind == "lock-not-held" {
+			// a goroutine that locks a mutex it already holds never continues:
+			// past the Lock the mutex was not held by this goroutine before
+			vc.assume(reach, goal)
+		}
 		return
 	}
 	fr.callSeq["lock:"+kind]++
@@ -320,8 +326,135 @@ func (fr *Frame) lockObl(site ssa.Instruction, st *State, reach, kind, goal stri
 }
 
 // lock invariants (lockinv) are attached later by the contracts; hooks kept here.
-func (fr *Frame) acquireInv(mv ssa.Value, m string, st *State, reach string) {}
+// lockInvOf: the declared invariant of the mutex field mv addresses, the owner
+// object and its struct type.
+func (fr *Frame) lockInvOf(mv ssa.Value) (*LockInv, string, types.Type) {
+	fa, ok := mv.(*ssa.FieldAddr)
+	if !ok {
+		return nil, "", nil
+	}
+	T := fa.X.Type().Underlying().(*types.Pointer).Elem()
+	s, ok := structOf(T)
+	if !ok {
+		return nil, "", nil
+	}
+	li := fr.vc.DB.LockInvs[typeKey(T)+"."+s.Field(fa.Field).Name()]
+	if li == nil {
+		return nil, "", nil
+	}
+	return li, fr.val(fa.X), T
+}
+
+func (fr *Frame) lockInvTerm(li *LockInv, owner string, T types.Type, st *State) string {
+	vc := fr.vc
+	env := vc.newEnv(&FuncContract{Name: "lockinv " + li.Recv + "." + li.Mutex, Pkg: li.Pkg}, st, st)
+	env.vars["self"] = cval{t: owner, typ: types.NewPointer(T), sort: "Int"}
+	return env.evalBool(li.E)
+}
+
+// createdHere: the pointer is the result of a new/composite literal of the
+// enclosing function, possibly read back from a local variable that is only
+// ever assigned such results.
+func createdHere(v ssa.Value, depth int) bool {
+	if depth > 3 {
+		return false
+	}
+	switch x := v.(type) {
+	case *ssa.Alloc:
+		return true
+	case *ssa.UnOp:
+		cell, ok := x.X.(*ssa.Alloc)
+		if !ok || x.Op != token.MUL || cell.Referrers() == nil {
+			return false
+		}
+		stores := 0
+		for _, r := range *cell.Referrers() {
+			if st, ok := r.(*ssa.Store); ok && st.Addr == cell {
+				stores++
+				if !createdHere(st.Val, depth+1) {
+					return false
+				}
+			}
+		}
+		return stores > 0
+	}
+	return false
+}
+
+// acquireInv: taking the mutex of an object that existed before this function
+// started: the protected fields have whatever values the other goroutines left,
+// constrained only by the invariant.
+func (fr *Frame) acquireInv(mv ssa.Value, m string, st *State, reach string) {
+	vc := fr.vc
+	li, owner, T := fr.lockInvOf(mv)
+	if li == nil {
+		return
+	}
+	// an object created by this very function (new / composite literal) is not
+	// yet visible to other goroutines when it is first locked
+	pre := "true"
+	if fa, ok := mv.(*ssa.FieldAddr); ok && createdHere(fa.X, 0) {
+		pre = "false"
+	}
+	s, _ := structOf(T)
+	for _, f := range li.Fields {
+		if strings.HasPrefix(f, "#") {
+			g := vc.DB.Ghosts["field:"+f[1:]]
+			if g == nil {
+				vc.warn("lockinv %s: unknown ghost field %s", li.Recv, f)
+				continue
+			}
+			hv := vc.heapVar("GF!"+f[1:], "(Array Int "+ghostSort(g.Sort)+")")
+			nv := vc.fresh("interf", ghostSort(g.Sort))
+			cur := vc.look(st, hv)
+			vc.set(st, hv, vc.hsort[hv], fmt.Sprintf("(store %s %s %s)", cur, owner, sIte(pre, nv, fmt.Sprintf("(select %s %s)", cur, owner))))
+			continue
+		}
+		found := false
+		for i := 0; i < s.NumFields(); i++ {
+			if s.Field(i).Name() != f {
+				continue
+			}
+			found = true
+			a, _ := vc.fieldAddr(T, i, owner)
+			if a == nil {
+				continue
+			}
+			nv := vc.fresh("interf", a.Sort)
+			vc.assume(reach, vc.rangeFact(nv, s.Field(i).Type()))
+			vc.assume(reach, fr.allocFact(st, nv, s.Field(i).Type()))
+			vc.write(st, a, sIte(pre, nv, vc.read(st, a)))
+		}
+		if !found {
+			vc.warn("lockinv %s: no field %s", li.Recv, f)
+		}
+	}
+	if pre == "true" {
+		vc.assume(reach, fr.lockInvTerm(li, owner, T, st))
+	}
+	vc.Assumptions["lockinv "+li.Recv+"."+li.Mutex+": fields "+strings.Join(li.Fields, ", ")+" are accessed only with the mutex held; an object created by a new/composite literal of the function under verification is not yet visible to other goroutines when it is locked"] = true
+}
+
 func (fr *Frame) releaseInv(site ssa.Instruction, mv ssa.Value, m string, st *State, reach string) {
+	vc := fr.vc
+	li, owner, T := fr.lockInvOf(mv)
+	if li == nil {
+		return
+	}
+	if len(li.Props) > 0 {
+		ok := false
+		for _, p := range li.Props {
+			if p == vc.prop {
+				ok = true
+			}
+		}
+		if !ok {
+			return
+		}
+	}
+	fr.callSeq["lockinv"]++
+	nm := fmt.Sprintf("%s/%s/lockinv[%s.%s]/release#%d", vc.prop, vc.qname, li.Recv, li.Mutex, fr.callSeq["lockinv"])
+	vc.oblige("lockinv", nm, li.Src, reach, fr.lockInvTerm(li, owner, T, st), site.Pos(), true)
 }
 
 func (fr *Frame) atomicModel(site ssa.Instruction, op string, c *ssa.CallCommon, st *State, reach *string) ([]string, bool) {
